@@ -113,11 +113,26 @@ def renderRetE : Res RetE → String
 
 def liftRetE {α} (f : α → RetE) (m : MT α) : MT RetE := do let a ← m; pure (f a)
 
-def e2eProgram (op : SOp) (w : WorldT) : Option (MT RetE × WorldT) := do
+/-- a connect whose TCP connection cannot be established (name resolution fails, connection refused): the prefix of
+    `connectT` up to that point - argument checks, the open connection abandoned, clean state - then the error.
+    (The model's `connectT` assumes that the connection is established; this case is modelled here, in the driver.) -/
+def failedConnectT (cred : Option (Bytes × Bytes)) : MT RetE := do
+  match cred with
+  | some (u, p) => let _ ← lift (mkCmd "USER" (some u)); let _ ← lift (mkCmd "PASS" (some p)); pure ()
+  | none => pure ()
+  let w0 ← getT
+  if w0.base.connected then
+    emitT (.ev w0.ctlTls .ctlClose)
+    modifyT fun w => { w with base := { w.base with connected := false } }
+  modifyT fun w => { w with ctlTls := false, ctlSsl := false }
+  throwT
+
+def e2eProgram (op : SOp) (w : WorldT) (tcpOk : Bool := true) : Option (MT RetE × WorldT) := do
   let a := op.args
   match op.name with
   | "connect" =>
     let cred ← if a.length ≥ 4 then (do let u ← hexArg a 2; let p ← hexArg a 3; pure (some (u, p))) else pure none
+    if !tcpOk then pure (failedConnectT cred, w) else
     pure (liftRetE .replies (connectT (if w.base.v6 then str "::1" else str "127.0.0.1") 0 cred), w)
   | "login" => do let u ← hexArg a 0; let p ← hexArg a 1; pure (liftRetE .replies (loginT u p), w)
   | "logout" => pure (liftRetE .reply logoutT, w)
@@ -180,7 +195,9 @@ def runE2eOp (w : WorldT) (op : SOp) (seg : List String) (gone : Bool := false) 
     blockOks := [], conn := none, sinkFailAt := none, sinkWrites := 0, sink := [], sinkFlushes := 0,
     sinkSilent := true, src := ⟨[], []⟩, srcFailAt := none, srcReads := 0, polls := [], cancelled := false, peerGot := [], trace := [] }
   let w0 : WorldT := { w with base := b0, hsOks := hsOksOf seg, dataTls := false, trace := [] }
-  let (prog, w1) ← e2eProgram op w0
+  -- did the TCP connection of a connect come about?  (dc:<n>:<endpoint>:1 in the implementation's trace)
+  let tcpOk := op.name != "connect" || seg.any fun t => match t.splitOn ":" with | ["dc", _, _, "1"] => true | _ => false
+  let (prog, w1) ← e2eProgram op w0 tcpOk
   let (res, w2) := prog w1
   pure (modelTokens w2.trace ++ [renderRetE res] ++ [s!"st:{b01 w2.base.connected}"], w2)
 
@@ -344,7 +361,11 @@ def monitorE2e (cfg : E2eCfg) (st : E2eState) (op : SOp) (seg : List String) : O
          let want := if st.w.base.ttype == .ascii then Spec.ulSpec data else data
          -- peer:<connected>:<sent>:<recvlen>:<fnv>:<eof>:<err>:<tls_ok>:<reused>
          if f.getD 3 "" != toString want.length || f.getD 4 "" != toString (fnv64 want).toNat then some "upload-bytes-differ"
-         else if f.getD 5 "" != "1" then some "peer-saw-no-end-of-file" else none
+         else if f.getD 5 "" != "1" then some "peer-saw-no-end-of-file"
+         -- "after a TLS close-notify when TLS is on": the peer of a protected data connection saw the close-notify
+         -- peer:...:<tls_ok>:<reused>:<close-notify seen>
+         else if f.getD 7 "0" = "1" && f.getD 9 "1" != "1" then some "data-connection-closed-without-tls-close-notify"
+         else none
        | _, _ => none)
     else none
   else if cfg.prop = "C06" then
